@@ -27,6 +27,7 @@ class Module:
                 self.tree = ast.parse(src, filename=rel)
         except SyntaxError as e:  # pragma: no cover
             raise AnalysisError(f"cannot parse {rel}: {e}")
+        _normalise_annotations(self.tree)
         _strip_noops(self.tree)
         for parent in ast.walk(self.tree):
             for child in ast.iter_child_nodes(parent):
@@ -62,6 +63,33 @@ class Module:
                         self.star_imports.append(base)
                     else:
                         self.imports[a.asname or a.name] = base + "." + a.name
+
+
+def _normalise_annotations(tree: ast.AST) -> None:
+    """inside function bodies `x: T = v` becomes `x = v` and a bare `x: T` disappears (type annotations on locals and
+    on self attributes have no run-time effect), so rules see one assignment form."""
+    for fn in ast.walk(tree):
+        if not isinstance(fn, (ast.FunctionDef, ast.AsyncFunctionDef)):
+            continue
+        for n in ast.walk(fn):
+            for field in ("body", "orelse", "finalbody"):
+                b = getattr(n, field, None)
+                if not (isinstance(b, list) and b and all(isinstance(x, ast.stmt) for x in b)):
+                    continue
+                out = []
+                for x in b:
+                    if isinstance(x, ast.AnnAssign):
+                        if x.value is None:
+                            continue
+                        a = ast.Assign(targets=[x.target], value=x.value)
+                        ast.copy_location(a, x)
+                        a.end_lineno, a.end_col_offset = getattr(x, "end_lineno", x.lineno), getattr(x, "end_col_offset", 0)
+                        out.append(a)
+                    else:
+                        out.append(x)
+                if not out:
+                    out = [ast.copy_location(ast.Pass(), b[0])]
+                b[:] = out
 
 
 def _strip_noops(tree: ast.AST) -> None:
